@@ -1990,6 +1990,12 @@ def run_iso(s, o):
     out['sample_mean'], out['sample_gradient'] = smp.mean, smp.gradient
     out['sample_gradient_error'], out['sample_sector_area'] = smp.gradient_error, smp.sector_area
     out['sample_points'] = np.array([smp.total_points, smp.actual_points])
+    # every case also takes one area-integrated sample far out (sector sums beyond the 16-bit ranges), for both
+    # area integrators
+    for mode in ('mean', 'median'):
+        big = EllipseSample(img, 50.0, geometry=geom, integrmode=mode)
+        big.update()
+        out[f'sample50_{mode}_mean'], out[f'sample50_{mode}_gradient'] = big.mean, big.gradient
     if o['fit']:
         iso = Ellipse(img, geom).fit_isophote(o['sma'], integrmode=o['integrmode'], nclip=o['nclip'])
         for a in _ISO_ATTRS:
